@@ -909,3 +909,11 @@ func Deviations() (p, d, f int) {
 	}
 	return S.used[CostP], S.used[CostD], S.used[CostF]
 }
+
+// ChoicesSoFar returns the choice sequence of the current execution up to now (for debugging / replay files).
+func ChoicesSoFar() []int {
+	if S == nil {
+		return nil
+	}
+	return taken(S.trace)
+}
